@@ -8,7 +8,7 @@ ID = "C07"
 COQ_IMPORTS = ["From HTA.model Require Import C07_Model."]
 SOURCES = {"hta/analyzers/communication_analysis.py": ["get_comm_comp_overlap"],
            "hta/utils/utils.py": ["merge_kernel_intervals", "get_kernel_type", "is_comm_kernel", "is_memory_kernel", "is_compute_kernel"]}
-TRANSLATE = [translate.gen_kernel_rules]
+TRANSLATE = [translate.gen_kernel_rules, translate.gen_launch_names]
 INPUT_CONTRACT = True        # the loaded frame is re-checked against the file (framework.input_contract)
 N_CASES = {"quick": 400, "thorough": 6000}
 RULE = ("generated file sets, mostly profile comm_overlap (device intervals anywhere on a tiny time domain, half of them communication kernels: "
